@@ -571,9 +571,7 @@ def run_job(job, answers):
             # the plain Enforcer stores a rule twice (C06's defect domain, unrepaired policy.py): its set semantics are gone
             count("stopped:enforcer-holds-a-rule-twice(C06)")
             break
-        if malformed(op, shape, order):
-            judged_plain = False
-            count("left-main:malformed")
+        mal = malformed(op, shape, order)
         if lean_ok and not judged_plain:
             try:
                 cur_f = [list(r) for r in fast.get_policy()]
@@ -586,6 +584,14 @@ def run_job(job, answers):
             count("left-main:c06-domain")
         rf = apply_op(fast, op)
         rp = apply_op(plain, op)
+        if mal:
+            if rf == rp and rf.startswith("!"):
+                # both enforcers refused the ill-formed call with the same exception: nothing may have changed on either
+                # side, the Enforcer stays the reference
+                count("malformed:refused-by-both")
+            else:
+                judged_plain = False
+                count("left-main:malformed")
         if step < skip_obs:
             of = op_ = "~#"
         else:
